@@ -17,11 +17,15 @@ LEVEL_TEXT = ('Lean theorems, for every lattice given as data (face supports as 
               'with the face stabilizers on every edge (decidable hypothesis flipTableOK) the tracked signs equal '
               'the face syndrome of error + correction so far, the run never raises, the correction is Z-only, '
               'and a stop without excitations leaves zero face syndrome. flipTableOK (and the two side '
-              'conditions) are proved for Toric3DCode of every size L_i >= 2 and Planar3DCode of every size, so '
-              'C10 holds there unconditionally; for RotatedPlanar3DCode they are kernel-checked for the listed '
-              'sizes up to 4x4x2 (theorems named _partial) and evaluated by the compiled model on every size '
-              'the harness runs. The model is tied to the decoders by differential runs of flip_edge on every '
-              'edge, of every sweep_move of traced decodes, and of full decode results.')
+              'conditions) are proved for Toric3DCode of every size L_i >= 2, Planar3DCode of every size and '
+              'RotatedPlanar3DCode of every size (rotated_planar3D_flip_table_ok, _stabilizers_distinct, '
+              '_sweep_edges_ok: coordinate argument over the (x+y)%4 sub-lattices, no size bound), so C10 holds '
+              'on these three families unconditionally (toric3D_/planar3D_/rotated_planar3D_sweep_tracks); ten '
+              'RotatedPlanar3DCode sizes up to 4x4x2 are additionally kernel-evaluated as an independent '
+              'cross-check, and the compiled model evaluates the hypotheses on every size the harness runs. '
+              'RotatedToric3DCode is a negative instance (known finding D10). The model is tied to the decoders '
+              'by differential runs of flip_edge on every edge, of every sweep_move of traced decodes, and of '
+              'full decode results.')
 LEVEL_NOTE = ('trusted: Lean kernel + standard axioms; correspondence harness; hand-written Lean transcription of '
               'the two automata and of the four 3-D lattices (compared with the implementation on every run: '
               'coordinates, stabilizer supports, types, z_indices); signs are modelled as 0/1 values; the numpy '
